@@ -322,6 +322,19 @@ impl State {
         Ok(())
     }
 
+    // With append, the file with the latest timestamp is continued; without append, a new file
+    // is started, which must not replace a file that was written in the same second.
+    fn infix_for_new_direct_file(&self, ts: &DateTime<Local>, fmt: &InfixFormat) -> String {
+        let infix = infix_from_timestamp(ts, self.config.use_utc, fmt);
+        if self.config.append {
+            infix
+        } else {
+            self.config
+                .file_spec
+                .collision_free_infix_for_rotated_file(&infix)
+        }
+    }
+
     #[allow(clippy::too_many_lines)]
     fn initialize_with_rotation(
         &self,
@@ -338,7 +351,7 @@ impl State {
                         the_current_infix: None,
                         infix_format: InfixFormat::Std,
                     },
-                    infix_from_timestamp(&ts, self.config.use_utc, &InfixFormat::Std),
+                    self.infix_for_new_direct_file(&ts, &InfixFormat::Std),
                 )
             }
             Naming::Timestamps => (
@@ -376,7 +389,7 @@ impl State {
                 } else {
                     let fmt = InfixFormat::custom(ts_fmt);
                     let ts = latest_timestamp_file(&self.config, !self.config.append, &fmt);
-                    let infix = infix_from_timestamp(&ts, self.config.use_utc, &fmt);
+                    let infix = self.infix_for_new_direct_file(&ts, &fmt);
                     (
                         NamingState::Timestamps {
                             current_timestamp: ts,
